@@ -922,8 +922,10 @@ qb_log_target_alloc(void)
 void
 qb_log_target_free(struct qb_log_target *t)
 {
+	/* qb_log_filter_ctl() refuses a NULL text; "*" is what every
+	 * other CLEAR_ALL passes */
 	(void)qb_log_filter_ctl(t->pos, QB_LOG_FILTER_CLEAR_ALL,
-				QB_LOG_FILTER_FILE, NULL, 0);
+				QB_LOG_FILTER_FILE, "*", LOG_TRACE);
 	t->debug = QB_FALSE;
 	t->filename[0] = '\0';
 	qb_log_format_set(t->pos, NULL);
